@@ -202,6 +202,42 @@ def pollBlocks (last : Nat) (ans : BlockAns) (safe : Bool) : Nat × Option (Nat 
   | none => (last, none, true)
   | some (n, s) => if last ≥ n then (last, none, false) else (n, some (n, s), false)
 
+/-- What the node answers to one `eth_getBlockByNumber` request, per block tag (the finalized and the latest head differ, and
+one tag may fail while another is served). -/
+abbrev TagAns := String → BlockAns
+
+/-- poller.go:50-58, start-up of `BlockPollConnector.run`: the first block is requested with `b.getBlock(ctx, logger, nil, false)`,
+i.e. under the tag `blockTag none b.useFinalized false`; when that fails `run` **returns the error** and the supervisor runs it
+again on the same connector (`useFinalized` is assigned only by `NewBlockPollConnector`, poller.go:34). `attempts` = the node's
+answers to the successive first queries. Result: the tags requested, in order, and the poller's first `lastBlock` (`none`: every
+attempt so far failed - nothing is published and the re-observation path gets no block number from a failing query either). -/
+def pollerStart (useFinalized : Bool) : List TagAns → List String × Option Nat
+  | [] => ([], none)
+  | a :: rest =>
+    let tag := blockTag none useFinalized false
+    match getBlock (a tag) false with
+    | some (n, _) => ([tag], some n)
+    | none => (tag :: (pollerStart useFinalized rest).1, (pollerStart useFinalized rest).2)
+
+/-- NOT the code: the variant in which a failing first query on a chain read at finalized height clears `useFinalized` and asks
+for the latest block instead ("not every provider knows the finalized tag"). Result as `pollerStart`, plus the flag the
+connector keeps for its lifetime (the per-head scan and `getBlockNumber` both go through it). Kept only for the negation witness
+`c10_poller_start_fallback_witness`. -/
+def pollerStartFallback (useFinalized : Bool) : List TagAns → List String × Option Nat × Bool
+  | [] => ([], none, useFinalized)
+  | a :: rest =>
+    let tag := blockTag none useFinalized false
+    match getBlock (a tag) false with
+    | some (n, _) => ([tag], some n, useFinalized)
+    | none =>
+      if useFinalized then
+        match getBlock (a (blockTag none false false)) false with
+        | some (n, _) => ([tag, blockTag none false false], some n, false)
+        | none => let r := pollerStartFallback false rest
+                  (tag :: blockTag none false false :: r.1, r.2.1, r.2.2)
+      else let r := pollerStartFallback useFinalized rest
+           (tag :: r.1, r.2.1, r.2.2)
+
 /-- Watcher + poller state between events. -/
 structure St where
   pending : List Pend
@@ -360,6 +396,37 @@ def reobsHeadTag (cfg : Cfg) : String := blockTag none cfg.useFinalized false
 
 /-- The head served under that tag by a node whose latest / finalized heads are `lat` / `fin`. -/
 def reobsHead (cfg : Cfg) (lat fin : Nat) : Nat := if cfg.useFinalized then fin else lat
+
+/-! ## Re-observation while the node changes branch -/
+
+/-- What the node would answer to the re-observation's three RPC requests in one state of the chain: the head under the tag
+the watcher reads, the transaction's receipt, and the time of the block with a given hash. -/
+structure NodeView where
+  head : Option Nat                -- `none`: the head query fails
+  rc : Option Receipt
+  rcErr : Bool
+  bt : Bytes → Option Nat
+
+/-- watcher.go:249-264: the re-observation goroutine issues its RPC requests in a fixed order - **the head first**
+(`getBlockNumber`, request 1), then the receipt (request 2) and the block time of the receipt's block (request 3), both inside
+`MessageEventsForTransaction`. The node answers the first `k` requests in view `a` and the others in view `b` (`k = 0`: the chain
+changed before the request; `k ≥ 3`: after its last RPC request). -/
+def viewAt (k : Nat) (a b : NodeView) (j : Nat) : NodeView := if j ≤ k then a else b
+
+def reobserveAcross (cfg : Cfg) (topic : Bytes) (k : Nat) (a b : NodeView) : List (Msg × ReDec) :=
+  let vr := viewAt k a b 2
+  reobserve cfg (viewAt k a b 1).head
+    (messageEvents cfg.contract topic cfg.chainId vr.rc vr.rcErr ((vr.rc.bind fun r => (viewAt k a b 3).bt r.bh)))
+
+def reobsForwardedAcross (cfg : Cfg) (topic : Bytes) (k : Nat) (a b : NodeView) : List Msg :=
+  ((reobserveAcross cfg topic k a b).filter (fun x => x.2 = .fwd)).map (·.1)
+
+/-- NOT the code: the variant in which the head is read AFTER `MessageEventsForTransaction` (receipt = request 1, block time =
+request 2, head = request 3). Kept only for the negation witness `c10_reobserve_head_last_witness`. -/
+def reobsForwardedAcrossHeadLast (cfg : Cfg) (topic : Bytes) (k : Nat) (a b : NodeView) : List Msg :=
+  let vr := viewAt k a b 1
+  reobsForwarded cfg (viewAt k a b 3).head
+    (messageEvents cfg.contract topic cfg.chainId vr.rc vr.rcErr ((vr.rc.bind fun r => (viewAt k a b 2).bt r.bh)))
 
 /-! ## What go-ethereum's client hands the watcher for a node answer (trusted base, observed by the tie) -/
 
